@@ -62,3 +62,13 @@ func makeDeepDir(dir, name string) error {
 	syscall.Close(fd)
 	return nil
 }
+
+// plantTmp leaves, for each report name, a sibling <name>.tmp longer than any report: what an
+// interrupted write-to-temporary-then-rename leaves behind. The unchanged tree never reads them.
+func plantTmp(dir string, names []string) {
+	os.MkdirAll(dir, 0755)
+	junk := []byte(strings.Repeat("{\"interrupted\": true}\n", 4096))
+	for _, n := range names {
+		os.WriteFile(filepath.Join(dir, n+".tmp"), junk, 0644)
+	}
+}
